@@ -24,5 +24,13 @@ def main():
         if subprocess.call(["cargo", "build", "--offline", "--release", "--manifest-path",
                             os.path.join(inproc, "Cargo.toml")], env=env) != 0:
             return 1
+    try:
+        from . import fuzz
+        ok, msg = fuzz.build()
+        if not ok:
+            # not fatal: the coverage-guided tier of C13/C15/C18 reports itself as disabled in the evidence
+            sys.stderr.write("note: fuzz targets did not build: %s\n" % msg[-400:])
+    except Exception as e:
+        sys.stderr.write("note: fuzz build skipped: %r\n" % (e,))
     print("setup ok")
     return 0
